@@ -24,6 +24,12 @@ CLAIMED["C08"] = dict(
     note="Modelled, not verified: SHA-256 (abstract nodeH; the driver instantiates it with a SHA-256 that is cross-checked against every digest the crate prints), leaf hashing and 32-byte chunking of the audit path.",
     design="4/C08")
 
+CLAIMED["C09"] = dict(
+    technique="Coq proofs (exact 2/3 threshold arithmetic; tally invariant with duplicate detection by induction over the signature list; metadata acceptance; reconstruction bound) of a Gallina model of conductor's firm-block verification, with the threshold kernel regenerated from the Rust source on every run; tied to the code by differential correspondence through real ed25519 commits, a mock CometBFT RPC and real Celestia blob encoding",
+    text="Theorems for all validator sets, power distributions and signature lists: a commit is accepted only if distinct validators with valid signatures hold strictly more than 2/3 of the total power (threshold function regenerated from block_verifier.rs and proved equal to the model's); metadata is kept only with the commit's block hash and chain id; rollup data is attached only to a verified header with the same hash whose Merkle audit succeeds. The extracted model runs against ensure_commit_has_quorum and the real decode -> verify_metadata -> reconstruct pipeline on generated commits (boundary powers, duplicated/forged/empty/nil/unknown signatures) and single tamperings of blobs; the acceptance condition is also monitored directly on the implementation's output.",
+    note="Modelled, not verified: ed25519 (Valid/Invalid/Missing per entry), protobuf/brotli well-formedness and the Merkle audit verdict of blob entries (inputs of the pipeline model; the audit itself is C08), RPC transport/rate limit/moka cache. Three genuine defects of the pinned tree were found and fixed (known_findings.json F2-F4).",
+    design="4/C09")
+
 NOT_YET = "check under construction in this round; nothing is claimed for it yet (see DESIGN.md section 4 for the plan)"
 
 checks, na = [], []
